@@ -175,7 +175,7 @@ Update(i, u) ==       \* Counter::increment/absolute, Gauge::increment/decrement
   /\ nupd' = nupd + 1
   /\ UNCHANGED <<cfg, regs, handles, ncalls>>
 
-DoConfigure == \E c \in Configs : Configure(c)
+DoConfigure == cfg.t = "none" /\ \E c \in Configs : Configure(c)      \* guard first: Configs is large
 DoDescribe == cfg.t # "none" /\ ncalls < MaxCalls /\ \E op \in OpsOf(cfg) : Describe(op)
 DoRegister == cfg.t # "none" /\ ncalls < MaxCalls /\ \E op \in OpsOf(cfg) : Register(op)
 DoUpdate == nupd < MaxUpdates /\ \E i \in DOMAIN handles : \E u \in UpdatesOf(handles[i].kind) : Update(i, u)
